@@ -27,7 +27,8 @@ OK(e) ==
   \* "followed by exactly one line per instruction in assembly order"
   /\ Len(e.lines) = nh + Len(all) \/ (Len(all) = 0 /\ nh = 0 /\ e.lines = <<"">>)
   \* (extended-instruction names apply to block instructions of functions; ids imported as a known set)
-  /\ \A j \in 1..Len(all) : TokensMatch(LineToksIn(all[j], m.ext_inst_imports), e.tokens[nh + j])
+  /\ LET types == TrackSeq(NoTypes, m.types_global_values, 1)  ng == Len(GlobalInsts(m)) IN
+       \A j \in 1..Len(all) : TokensMatch(LineToksTyped(all[j], m.ext_inst_imports, types, j <= ng), e.tokens[nh + j])
   \* "Reading the text back with the same vocabulary reconstructs the instruction stream exactly"
   /\ e.reread_ok /\ Len(e.reread) = Len(all) /\ \A j \in 1..Len(all) : SameModuloNaN(all[j], e.reread[j])
 
